@@ -6,7 +6,7 @@ from ..astutil import text, short, endswith, calls_in, walk_no_nested
 from ..dataflow import DefUse
 from .. import events as E
 from .c01 import INVERSE, undo_ctor_of, undo_records
-from ._h_E import Flow, arg, argn, nargs, mutation_nodes_deep
+from ._h_E import decide, anchors_of, cname, calls_E, nodes_calling_E, Flow, arg, argn, nargs, mutation_nodes_deep
 
 EXPLANATION = (
   "Decides that the rollback path exists on every failing path and can work: apply_user_actions "
@@ -22,12 +22,13 @@ RECORD_ACTIONS = ("BulkAddRecord", "BulkRemoveRecord", "BulkUpdateRecord", "Repl
 
 
 def check(run, repo, tier):
-  w = World(repo)
-  r1_rollback(run, w)
-  r2_undo_first(run, w)
-  r3_schema_restore(run, w)
-  r4_formula_side_effects(run, w)
-  r5_uncovered(run, w)
+  # each rule is decided on the code as written; when it is not satisfied there, it is asked again
+  # on the view with private helpers inlined (see _h_E.decide), so statements moved into a new
+  # helper keep their place
+  import os
+  _HERE = os.path.dirname(os.path.abspath(__file__))
+  decide(run, repo, [r1_rollback, r2_undo_first, r3_schema_restore, r4_formula_side_effects, r5_uncovered],
+         anchors_of(os.path.join(_HERE, "c04.py"), os.path.join(_HERE, "c01.py"), os.path.join(_HERE, "_h_E.py"), os.path.join(_HERE, "../events.py")))
 
 
 def _catch_all(h):
@@ -46,7 +47,7 @@ def r1_rollback(run, w):
   trys = [s for s in fn.node.body if isinstance(s, ast.Try)]
   main = None
   for t in trys:
-    if any(endswith(fn.name(c), "_apply_one_user_action") for c in calls_in(t.body)):
+    if any(endswith(cname(fn, c), "_apply_one_user_action") for c in calls_in(t.body)):
       main = t
   if main is None:
     raise AnalysisError("apply_user_actions: guarded user-action loop not found")
@@ -55,16 +56,17 @@ def r1_rollback(run, w):
         and len(it.args) == 1:
       it = it.args[0]
     return isinstance(it, ast.Name) and it.id == p_actions
-  loops = [s for s in main.body if isinstance(s, ast.For) and over_actions(s.iter)]
+  loops = [s for b_ in main.body for s in ast.walk(b_)
+           if isinstance(s, ast.For) and over_actions(s.iter)]
   run.ob(R1, fn.qualname, "for user_action in %s: ... _apply_one_user_action" % p_actions,
          "every user action of the bundle is applied inside the guarded region",
-         len(loops) == 1 and any(endswith(fn.name(c), "_apply_one_user_action")
+         len(loops) == 1 and any(endswith(cname(fn, c), "_apply_one_user_action")
                                  for c in calls_in(loops[0].body)), fi=fn.fi, node=main)
   # checkpoint variable
   cps = [(n, n.stmt.targets[0].id) for n in cfg.nodes if n.kind == "stmt" and
          isinstance(n.stmt, ast.Assign) and isinstance(n.stmt.targets[0], ast.Name) and
          isinstance(n.stmt.value, ast.Call) and
-         endswith(fn.name(n.stmt.value), "_get_undo_checkpoint")]
+         endswith(cname(fn, n.stmt.value), "_get_undo_checkpoint")]
   if not cps:
     raise AnalysisError("apply_user_actions: checkpoint definition not found")
   cpnode, cpvar = cps[0]
@@ -86,7 +88,7 @@ def r1_rollback(run, w):
          len(handlers) >= 1 and _catch_all(main.handlers[0]), fi=fn.fi, node=main)
   for h in handlers:
     hn = [n for n in cfg.nodes if n.kind == "handler" and n.stmt is h]
-    undo = {n.id for (n, c, nm) in fn.calls() if endswith(nm, "_undo_to_checkpoint") and
+    undo = {n.id for (n, c, nm) in calls_E(fn) if endswith(nm, "_undo_to_checkpoint") and
             nargs(c) == 1 and argn(w, fn, c, 0) is not None and
             flow.denotes(argn(w, fn, c, 0), n.id, lambda v, k: v is cpnode.stmt.value)}
     for x in hn:
@@ -142,9 +144,13 @@ def r3_schema_restore(run, w):
   fn = w.fn("engine.Engine.apply_doc_action")
   cfg = fn.xcfg     # the handler is reachable only through exceptional edges
   # dispatch node
-  disp = {n.id for (n, c, nm) in fn.calls(cfg) if isinstance(c.func, ast.Call) and
-          dotted(c.func.func) == "getattr" and c.func.args and
-          endswith(fn.name(c.func.args[0]) or "", "doc_actions")}
+  dflow = Flow(fn, cfg)
+  def is_dispatch(c, k):
+    """getattr(<x>.doc_actions, name)(...): the getattr written in place or held in a local."""
+    g = dflow.resolve(c.func, k)[0]
+    return isinstance(g, ast.Call) and dotted(g.func) == "getattr" and bool(g.args) and \
+        endswith(cname(fn, dflow.inline(g.args[0], k)) or "", "doc_actions")
+  disp = {n.id for (n, c, nm) in calls_E(fn, cfg) if is_dispatch(c, n.id)}
   if not disp:
     raise AnalysisError("apply_doc_action: dispatch not found")
   # the schema-action test: the edges on which `<applied action's type name> in schema_actions`
@@ -236,7 +242,7 @@ def r3_schema_restore(run, w):
       forced = {n.id for n in rcfg.nodes if n.kind == "stmt" and isinstance(n.stmt, ast.Assign)
                 and text(n.stmt.targets[0]) == "self._should_rebuild_usercode" and
                 isinstance(n.stmt.value, ast.Constant) and n.stmt.value.value is True}
-      rebuild = rfn.nodes_calling(lambda c, nm, f: nm == "self.rebuild_usercode", rcfg)
+      rebuild = nodes_calling_E(rfn, lambda c, nm, f: nm == "self.rebuild_usercode", rcfg)
       if start is not None:
         rebuild = {r for r in rebuild if r in rcfg.reach_after({start})}
       return bool(rnodes) and bool(rebuild) and all(
@@ -255,7 +261,7 @@ def r3_schema_restore(run, w):
     elif not restore:
       # the restore may have been extracted into a helper of the engine called from the handler
       from ._h_E import own_helper, args_by_params
-      for (n, c, nm) in fn.calls(cfg):
+      for (n, c, nm) in calls_E(fn, cfg):
         if id(n.stmt) not in hbody:
           continue
         hlp = own_helper(w, fn, c)
@@ -314,8 +320,8 @@ def r4_formula_side_effects(run, w):
   cps = [(n, n.stmt.targets[0].id) for n in cfg.nodes if n.kind == "stmt" and
          isinstance(n.stmt, ast.Assign) and isinstance(n.stmt.targets[0], ast.Name) and
          isinstance(n.stmt.value, ast.Call) and
-         endswith(fn.name(n.stmt.value), "_get_undo_checkpoint")]
-  methods = fn.nodes_calling(lambda c, nm, f: endswith(nm, "col.method") or
+         endswith(cname(fn, n.stmt.value), "_get_undo_checkpoint")]
+  methods = nodes_calling_E(fn, lambda c, nm, f: endswith(nm, "col.method") or
                              (isinstance(c.func, ast.Attribute) and c.func.attr == "method"))
   if not cps or not methods:
     raise AnalysisError("_recompute_one_cell: checkpoint or user-code call not found")
@@ -324,7 +330,7 @@ def r4_formula_side_effects(run, w):
          "side effects of user code are bracketed by a checkpoint",
          all(cfg.dominated_by(m, {cpnode.id}) for m in methods), fi=fn.fi, node=cpnode.stmt)
   flow = Flow(fn)
-  undo = {n.id for (n, c, nm) in fn.calls() if endswith(nm, "_undo_to_checkpoint") and
+  undo = {n.id for (n, c, nm) in calls_E(fn) if endswith(nm, "_undo_to_checkpoint") and
           nargs(c) == 1 and argn(w, fn, c, 0) is not None and
           flow.denotes(argn(w, fn, c, 0), n.id, lambda v, k: v is cpnode.stmt.value)}
   bare = [n for n in cfg.nodes if n.kind == "handler" and n.stmt.type is None]
@@ -341,13 +347,13 @@ def r4_formula_side_effects(run, w):
   cps = [(n, n.stmt.targets[0].id) for n in cfg.nodes if n.kind == "stmt" and
          isinstance(n.stmt, ast.Assign) and isinstance(n.stmt.targets[0], ast.Name) and
          isinstance(n.stmt.value, ast.Call) and
-         endswith(gv.name(n.stmt.value), "_get_undo_checkpoint")]
-  ev = gv.nodes_calling(lambda c, nm, f: endswith(nm, "_recompute_one_cell"), cfg)
+         endswith(cname(gv, n.stmt.value), "_get_undo_checkpoint")]
+  ev = nodes_calling_E(gv, lambda c, nm, f: endswith(nm, "_recompute_one_cell"), cfg)
   if not cps or not ev:
     raise AnalysisError("get_formula_value: checkpoint or evaluation not found")
   cpvar = cps[0][1]
   gflow = Flow(gv, cfg)
-  undo = {n.id for (n, c, nm) in gv.calls(cfg) if endswith(nm, "_undo_to_checkpoint") and
+  undo = {n.id for (n, c, nm) in calls_E(gv, cfg) if endswith(nm, "_undo_to_checkpoint") and
           nargs(c) == 1 and argn(w, gv, c, 0) is not None and
           gflow.denotes(argn(w, gv, c, 0), n.id, lambda v, k: v is cps[0][0].stmt.value)}
   ok = all(cfg.dominated_by(e, {cps[0][0].id}) for e in ev) and all(
